@@ -316,6 +316,13 @@ class EX:
         # fixed-arity unpacking of a split / call result
         if isinstance(st, ast.Assign) and isinstance(st.targets[0], ast.Tuple) and isinstance(st.value, ast.Call) and df.last_attr(st.value) == "split":
             guard = ru_in_guard(fi.node, st) or _path_guarantees_arity(fi.node, st)
+            # `sep in s` gives at least two parts; at MOST as many as there are names only with maxsplit = names - 1
+            want_ = len(st.targets[0].elts) - 1
+            ms_ = st.value.args[1] if len(st.value.args) >= 2 else next((k.value for k in st.value.keywords if k.arg == "maxsplit"), None)
+            if any(isinstance(x, ast.Starred) for x in st.targets[0].elts):
+                want_ = None
+            if want_ is not None and not (isinstance(ms_, ast.Constant) and ms_.value == want_):
+                guard = False
             if not guard:
                 self._add(out, Escape("ValueError", fi.qualname, "%s:%d" % (fi.module.relpath, st.lineno), norm(st)[:120]), handlers)
         for fld, val in ast.iter_fields(st):
